@@ -17,6 +17,26 @@ claimed.update({
          "Formats re-implemented from DESIGN.md Appendix D; quiescent states are sampled, not enumerated.",
          "deterministic simulation: independent fsck oracle over every quiescent disk image reached"),
 })
+claimed.update({
+ "C02": ("exploration", "Generated histories (incl. GC cycles, roll-over) with Close/reopen at arbitrary positions; at each one Close must return nil, a second Close must return nil and change no file, and the closed image is opened three ways (bucket snapshot kept / deleted / damaged): each fork must equal the map model (all keys + iteration) and all forks must resolve every bucket to byte-identical record lists.", "4/C02",
+         "Sampling of histories and reopen positions; clean Close only.",
+         "deterministic simulation: three-way reopen forks of every closed image vs map model and vs each other"),
+ "C05": ("exploration", "2-4 client tasks + flusher (+ explicit Flush client) on keys concentrated in 1-2 buckets; the seeded scheduler decides every interleaving at lock, channel, clock and file-system operations under several strategies; every error other than key-exists in immutable mode is a violation; the recorded history plus a final read-back is checked per key with porcupine against the register/map model.", "4/C05",
+         "Schedules sampled, not enumerated; yield points are synchronisation/IO operations; porcupine timeouts are inconclusive, never reported.",
+         "deterministic simulation: seeded schedule search + porcupine linearizability vs map model"),
+ "C06": ("exploration", "As C05 on the multihash primary with tiny files plus index-GC and primary-GC tasks (explicit cycles) or the store's own background collectors with time limits, and stalled disk operations; no call may fail, no task may panic, history + final read-back must be linearizable.", "4/C06",
+         "As C05. Two cycles of the same collector are never run at once.",
+         "deterministic simulation: seeded schedule search with concurrent GC + porcupine linearizability"),
+ "C12": ("exploration", "Bursting writers against a tiny burst rate with a finite measured flush rate; bounded liveness checked after every scheduler step: no writer may still be blocked at the flush-notice receive once the periodic flusher has completed 3 flush calls since the wait began; deadlock is the same violation. Single-writer-no-other-traffic is a dedicated class.", "4/C12",
+         "Bounded liveness (3 completed flusher iterations), no faults; schedules sampled with PCT/sticky/random strategies.",
+         "deterministic simulation: seeded schedule search + bounded-liveness watchdog on scheduler steps"),
+ "C16": ("exploration", "C05/C06 style concurrent runs plus storage-size queries and file-cache resizing executed in the -race build of the simulator: scheduler hand-offs are hidden from ThreadSanitizer and the simulated sync primitives publish exactly the real primitives' happens-before edges, so TSan reports the accesses unordered by the application's own synchronisation on a serialised, replayable execution.", "4/C16",
+         "TSan bounded history; fidelity of the published happens-before edges to package sync; workload coverage decides which access pairs are executed.",
+         "deterministic simulation under the Go race detector (hidden-baton construction)"),
+ "C17": ("exploration", "Close issued while flusher and background collectors are mid-cycle (stalled disk), then the virtual clock is advanced past 3x the largest interval: task table, handle ledger, op log after Close and reopen contents are checked; failing opens (size mismatches with the specific error, unsupported primary, invalid header, EIO inside OpenStore / inside a translation) must release everything; 20-50 open/close cycles return to baseline each time.", "4/C17",
+         "Callers have returned before Close; descriptors are simulated-disk handles, goroutines are simulator tasks.",
+         "deterministic simulation: resource ledger + task table after Close under seeded schedules, stalls and failing opens"),
+})
 pending = {}
 for i in range(1,18):
     pid = "C%02d" % i
